@@ -63,7 +63,7 @@ def check(ctx, run):
     run.not_decided.append("alignment and disjointness of the blocks returned by the platform allocator; realloc content preservation")
     run.rule("R1", "size arithmetic cannot wrap: the composed size computations folded at the largest sizes their guards accept (all residues mod 8, both bookkeeping layouts) and at small sizes never wrap and cover size + guard bytes (+ record); calloc(num, size) folded around the overflow boundary", floor=60, exhaustive=True)
     run.rule("R2", "null-check before use: the result of a may-return-NULL allocation is not dereferenced, indexed or used as a memcpy/memset destination without a dominating null test", floor=6)
-    run.rule("R3", "failure leaves tracking intact: no path of reallocMemory returns NULL for a failed platform realloc after the block's record was removed", floor=1)
+    run.rule("R3", "failure leaves tracking intact: no path of reallocMemory returns NULL for a failed platform realloc after the block's record was removed; a refused request leaves the detector's lock balanced in every allocating slot function", floor=1)
     run.rule("R4", "operator new family (SIBLING): throwing variants throw on a NULL result, nothrow variants never throw", floor=18)
     run.rule("R5", "layout: the aligned size is a multiple of sizeof(void*), at least size + guard bytes, for every residue and at the 2^32 / 2^63 boundaries; the allocation and reallocation paths folded over a heap model place guard bytes and record inside the requested block without overlap; lookup offset = placement offset", floor=40, exhaustive=True)
     run.rule("R6", "calloc zero-fills exactly the product under a null test; strdup_alloc copies size bytes into a size-byte block and terminates at size-1 with size >= 1", floor=5)
@@ -184,15 +184,25 @@ def check(ctx, run):
         env = dict(zip(pn, (9000, OLD, size, 111000, 77, sep) if realloc else (9000, size, 111000, 77, sep)))
         from .shared import detector_state
         env.update(detector_state(prog, [("startChecking", [])]))
+        # (the old block's record, as removeNode hands it out: a 12-byte block)
+        if realloc:
+            env.update({"@%d.size_" % OLDNODE: 12, "@%d.memory_" % OLDNODE: OLD})
 
         def h(name, ret):
             return lambda *a_: (seq.append((name, a_)), ret)[1]
+
+        def check(*a_):
+            # summary of checkForCorruption: a record that was allocated separately is released by it
+            seq.append(("check", a_))
+            if a_ and a_[-1]:
+                seq.append(("freenode", (a_[0] if isinstance(a_[0], int) and a_[0] == OLDNODE else a_[1] if len(a_) > 1 else None,)))
+            return 0
         ev = Evaluator(prog, f, env=env, calls={
             "TestMemoryAllocator::alloc_memory": h("alloc", mem_result), "PlatformSpecificRealloc": h("realloc", mem_result),
             "TestMemoryAllocator::allocMemoryLeakNode": h("allocnode", node_result), "TestMemoryAllocator::free_memory": h("free", 0),
             "TestMemoryAllocator::freeMemoryLeakNode": h("freenode", 0),
             "MemoryLeakDetectorTable::addNewNode": h("add", 0), "MemoryLeakDetectorTable::removeNode": h("remove", OLDNODE),
-            DET + "::addMemoryCorruptionInformation": h("guard", 0), DET + "::checkForCorruption": h("check", 0)})
+            DET + "::addMemoryCorruptionInformation": h("guard", 0), DET + "::checkForCorruption": check})
         ev.heap_mode = True
         ev.inline = DINL - set(ev.calls)
         try:
@@ -206,7 +216,7 @@ def check(ctx, run):
         r = getattr(ev, "ret", None)
         if isinstance(r, tuple):
             raise Unknown(str(r))
-        heap = {k: v for k, v in ev.env.items() if k.startswith("@")}
+        heap = {k: v for k, v in ev.env.items() if k.startswith("@") and env.get(k) != v}      # (what the fold wrote)
         return r, seq, heap
     for f, realloc in ((am, False), (rm, True)):
         bad, ncase = None, 0
@@ -221,7 +231,18 @@ def check(ctx, run):
                 kinds = [k for k, a_ in seq]
                 req = [a_ for k, a_ in seq if k == ("realloc" if realloc else "alloc")]
                 why = ""
-                if len(req) != 1:
+                released = set()
+                for k, a_ in seq:
+                    if k == "freenode":
+                        released.add(a_[-1])
+                    elif k == "add" and a_[-1] in released:
+                        why = "the record %s entered into the table was released before (a separately allocated record is released by checkForCorruption): the live block's record lies in freed storage" % (a_[-1],)
+                if why:
+                    pass
+                elif realloc and not req and r == OLD:
+                    run.broke("C05.R5: %s keeps the block in place for size %d: this rule cannot judge the capacity of the old block" % (f.qn, size))
+                    break
+                elif len(req) != 1:
                     why = "the underlying allocator is asked %d times" % len(req)
                 else:
                     R_ = req[0][1] if realloc else req[0][0]
@@ -387,6 +408,39 @@ def check(ctx, run):
                what="" if ok else "the detector is asked to %s: the old contents are poisoned or released before they can be carried over" % work)
     if locals().get("ntracked", 0) < 2:
         raise AnalysisBroken("C05.R3: fewer than two tracked realloc functions (default and thread-safe) found in the realloc slot")
+
+    # a request that is refused leaves every existing block usable: each function a switch stores in an allocating slot, folded with
+    # the detector answering NULL, has released the detector's lock as often as it took it by the time it returns NULL or throws
+    # (a lock left held blocks every later request and release)
+    from .C10 import slot_vars as slot_vars_
+    nref = 0
+    for s_ in [x for x in slot_vars_(prog) if not x.startswith("saved_") and x.startswith(("operator_new", "malloc_fptr", "realloc_fptr"))]:
+        for g in slot_targets(prog, s_):
+            def touches_detector(h, depth=2):
+                for c_ in h.calls():
+                    nm_ = prog.callee_name(h, c_) or ""
+                    if nm_.endswith("getGlobalDetector"):
+                        return True
+                    cc_ = c_.get("callee")
+                    if depth and cc_ and cc_.get("mn") in prog.functions and touches_detector(prog.functions[cc_["mn"]], depth - 1):
+                        return True
+                return False
+            if not touches_detector(g):
+                continue                 # (the untracked function of the switched-off mode: it has no lock to leave held)
+            try:
+                ev_, r_, end_, env_ = slot_fold(prog, g, alloc_answer=0)
+            except Unknown as u:
+                raise AnalysisBroken("C05.R3: %s cannot be folded with the detector refusing the request: %s" % (g.qn, u))
+            if not [e_ for e_ in ev_ if e_[0] == "detector"]:
+                continue
+            run.analysed(g)
+            nref += 1
+            lk, ul = [e_ for e_ in ev_ if e_[0] == "acquired"], [e_ for e_ in ev_ if e_[0] == "released"]
+            ok = len(lk) == len(ul)
+            run.ob("R3", "%s (slot %s) folded with the detector refusing the request: leaves by %s with the detector's lock released as often as taken" % (g.name, s_, end_), g.site, ok,
+                   witness={"locked": len(lk), "unlocked": len(ul)}, what="" if ok else "the refused request leaves the detector's mutex locked (%d lock, %d unlock): every later request or release blocks" % (len(lk), len(ul)))
+    if nref < 8:
+        raise AnalysisBroken("C05.R3: only %d tracked allocating slot functions found (default and thread-safe variants of new, new[], malloc, realloc)" % nref)
 
     # ---------------- R4 ----------------------------------------------------
     from .C10 import slot_vars
